@@ -38,7 +38,8 @@ def main():
     res = {"property": pid, "name": name}
     sh(f"git -C /repo worktree add -q --detach {tree} HEAD")
     try:
-        rc, out = sh(f"/venv/bin/python {demo}", cwd=tree)
+        denv = dict(os.environ, PYTHONPATH=tree)  # the demo must import the scratch tree, not the installed /repo
+        rc, out = sh(f"/venv/bin/python {demo}", cwd=tree, env=denv)
         res["demo_on_unchanged_tree"] = rc
         rc, out = sh(f"git apply {patch}", cwd=tree)
         res["patch_applies"] = rc == 0
@@ -49,7 +50,7 @@ def main():
         m = re.search(r"(\d+) failed, (\d+) passed", out)
         res["suite"] = m.group(0) if m else out[-200:]
         res["suite_ok"] = bool(m and m.group(2) == "410" and m.group(1) == "2")
-        rc, out = sh(f"/venv/bin/python {demo}", cwd=tree)
+        rc, out = sh(f"/venv/bin/python {demo}", cwd=tree, env=denv)
         res["demo_on_changed_tree"] = rc
         res["demo_output"] = out[-400:]
         env = dict(os.environ, VERIF_REPO=tree)
